@@ -50,7 +50,7 @@ pub fn run(ctx: &mut Ctx) {
     let seed0 = ctx.seed;
     for (name, f, reps) in fams {
         let t0 = crate::core::thread_cpu_s();
-        for rep in 0..ctx.qt(1, reps) {
+        for rep in 0..ctx.qt(1, reps * 4) {
             // every random draw goes through ctx.rng(seed, ..): a repetition is the same case
             // grid with different keys / salts / nonces / plaintexts
             ctx.seed = seed0 ^ rep.wrapping_mul(0x9E37_79B9_7F4A_7C15);
